@@ -78,7 +78,7 @@ def run(tier, seed, t0):
                 v.violation({"property": PID, "event": e, "series_layout": ser.get("layout"), "series_points": len(ser.get("pts", [])),
                              "what": "building / searching the %s index (min points %s) of a %d-point series (layout %s) panics: %s" % (
                                  e["kind"], e["minpts"], len(ser.get("pts", [])), ser.get("layout"), e["msg"])})
-    events, mism, r = vlib.judge_trace("Trace_C05", os.path.join(out, "c05.events.ndjson"), timeout=3000)
+    events, mism, r = vlib.judge_trace("Trace_C05", os.path.join(out, "c05.events.ndjson"), timeout=3000, split=True)
     drift = [m for m in mism if m[0] == "DRIFT"]
     for m in [m for m in mism if m[0] == "MISMATCH"]:
         e = events[m[1] - 1]
